@@ -502,6 +502,29 @@ fn collect_alts(node: &Value, path: String, strings: &[String], out: &mut Vec<Al
                         d.swap(i, i + 1);
                         out.push(mk(&path, Value::Array(d), "array-swap"));
                     }
+                    // an extra entry that is a variant of entry i: one numeric field set to a
+                    // small value (a table declared with no rows, one lane, ...), right after
+                    // entry i and at the end of the list
+                    if let Value::Object(m) = &a[i] {
+                        for (k, v) in m {
+                            let Some(x) = v.as_u64() else { continue };
+                            for c in [0u64, 1, 2] {
+                                if c == x {
+                                    continue;
+                                }
+                                let mut e = a[i].clone();
+                                e[k.as_str()] = json!(c);
+                                let mut d = a.clone();
+                                d.insert(i + 1, e.clone());
+                                out.push(mk(&path, Value::Array(d), "array-insert-variant"));
+                                if i + 1 < a.len() {
+                                    let mut d = a.clone();
+                                    d.push(e);
+                                    out.push(mk(&path, Value::Array(d), "array-insert-variant"));
+                                }
+                            }
+                        }
+                    }
                 }
             }
             for (i, c) in a.iter().enumerate() {
@@ -554,6 +577,11 @@ fn metadata_alts(tree: &Value) -> Vec<Alt> {
         }
     }
     out
+}
+
+/// structural alteration of the non-primitive table list, or another table's name in an entry
+fn is_table_set(a: &Alt) -> bool {
+    (a.path == "/non_primitives" && a.kind.starts_with("array-")) || (a.path.starts_with("/non_primitives/") && a.path.ends_with("/op_type"))
 }
 
 fn is_field_param(path: &str) -> bool {
@@ -751,6 +779,8 @@ fn main() {
                 Verdict::Accept => {
                     if sel.iter().any(|a| is_field_param(&a.path)) {
                         report.violation(format!("field_param_mismatch_accepted:{}", classes.join("+")), format!("{}: metadata contradicting the verifier's field parameters verifies: {:?}", fx.name, desc), replay);
+                    } else if sel.iter().any(|a| is_table_set(a)) {
+                        report.violation(format!("table_set_mismatch_accepted:{}", classes.join("+")), format!("{}: a table list that differs from the verifier's table set (entry dropped / duplicated / reordered / added) verifies: {:?}", fx.name, desc), replay);
                     } else {
                         harmless_m.lock().unwrap().insert(format!("{}:{}", fx.name, classes.join("+")));
                     }
